@@ -595,6 +595,73 @@ fn c12_stress(shard: &mut Shard, seed: u64, index: u64, rounds: u64) {
 }
 
 
+/// Busy polling at full speed: one long-lived completer and one long-lived poller hand acknowledgements to each other (no thread is
+/// spawned per round and no delay is injected, so tens of thousands of `done()` calls race a tight poll loop per second). The poller never
+/// parks: it polls until Ready, and then twice more. Refuted by Ready(Pending), a Ready that differs from what done() was given, or a later
+/// poll that disagrees. This reaches windows inside poll() that no schedule site separates (two adjacent loads) by sheer repetition.
+fn c12_busy(shard: &mut Shard, seed: u64, index: u64, rounds: u64) {
+    sched().release_all();
+    sched().quiet();
+    let slot: Arc<Mutex<Option<(Arc<VerifAck>, CommandStatus)>>> = Arc::new(Mutex::new(None));
+    let published = Arc::new(AtomicU64::new(0));
+    let consumed = Arc::new(AtomicU64::new(0));
+    let poller = {
+        let (slot, published, consumed) = (slot.clone(), published.clone(), consumed.clone());
+        thread::spawn(move || {
+            let waker = CountingWaker::new();
+            let mut problems: Vec<(u64, String)> = Vec::new();
+            let mut polls = 0u64;
+            let mut pending_polls = 0u64;
+            for round in 1..=rounds {
+                while published.load(Ordering::Acquire) < round { std::hint::spin_loop(); }
+                let (ack, expected) = slot.lock().unwrap().clone().unwrap();
+                let first = loop {
+                    polls += 1;
+                    match rt::poll_once(ack.handle(), &waker) { Poll::Ready(s) => break s, Poll::Pending => { pending_polls += 1; } }
+                    if polls > rounds * 1_000_000 { break CommandStatus::Pending; }
+                };
+                if first == CommandStatus::Pending { problems.push((round, "ready-pending".into())); }
+                else if first != expected { problems.push((round, format!("ready-with-{}-but-done-was-given-{}", status_name(&first), status_name(&expected)))); }
+                for _ in 0..2 {
+                    polls += 1;
+                    match rt::poll_once(ack.handle(), &waker) {
+                        Poll::Ready(s) if s == expected => {}
+                        Poll::Ready(s) => { if first == expected { problems.push((round, format!("status-changed-between-polls-to-{}", status_name(&s)))); } }
+                        Poll::Pending => problems.push((round, "pending-after-ready".into())),
+                    }
+                }
+                consumed.store(round, Ordering::Release);
+                if problems.len() > 20 { for r in round + 1..=rounds { let _ = r; } break; }
+            }
+            consumed.store(rounds, Ordering::Release);
+            (problems, polls, pending_polls)
+        })
+    };
+    let mut rng = rt::rng_for(seed, index, 0xB5);
+    for round in 1..=rounds {
+        let status = STATUSES[(round % 3) as usize];
+        let ack = Arc::new(VerifAck::new());
+        *slot.lock().unwrap() = Some((ack.clone(), status));
+        published.store(round, Ordering::Release);
+        for _ in 0..rng.below(120) { std::hint::spin_loop(); }
+        ack.done(status);
+        while consumed.load(Ordering::Acquire) < round { std::hint::spin_loop(); }
+        if consumed.load(Ordering::Acquire) >= rounds { break; }
+    }
+    published.store(rounds, Ordering::Release);
+    if let Ok((problems, polls, pending_polls)) = poller.join() {
+        shard.counts.add("busy_polls", polls);
+        shard.counts.add("busy_polls_that_were_pending", pending_polls);
+        shard.counts.add("acknowledgements_busy_polled", rounds);
+        for (round, p) in problems.into_iter().take(5) {
+            let witness = J::obj().with("engine", J::s("comp")).with("scenario", J::s("c12-busy")).with("seed", J::Int(seed as i128)).with("index", J::Int(index as i128)).with("round", J::Int(round as i128));
+            let signature = if p.starts_with("ready-with") { "C12/ready-with-a-status-done-was-not-given/busy".to_string() } else if p.starts_with("status-changed") { "C12/status-changed-between-polls/busy".to_string() } else { format!("C12/{}/busy", p) };
+            fail(shard, &["C12"], signature, format!("tight poll loop vs done(): {} in round {}", p, round), witness);
+        }
+    }
+    shard.case(fnv_step(0xB5, index), true);
+}
+
 /// Ack protocol under an interpreter that preempts at individual memory accesses (Miri many-seeds): one
 /// completer thread, one executor-like poller, no harness hooks installed. `variant` picks the status and
 /// whether the poller changes its waker.
@@ -692,6 +759,7 @@ pub fn run(args: &Args) -> Shard {
         }
         "c12-directed" => { if from == 0 { c12_directed(&mut shard); } }
         "c12-stress" => c12_stress(&mut shard, seed, from, count),
+        "c12-busy" => c12_busy(&mut shard, seed, from, count),
         other => { eprintln!("unknown scenario {}", other); std::process::exit(2); }
     }
     let mut visits = J::obj();
